@@ -457,22 +457,48 @@ def call_items(prog, body, term):
     return out
 
 
-def _closure_overwrites(prog, key):
-    """Does the closure body (passed to LocalKey::with) overwrite / clear the value it is given?"""
+def _closure_overwrites(prog, key, field=None):
+    """Does the closure body (passed to LocalKey::with) overwrite / clear the value it is given?  With `field` (last-field name of a
+    struct field of the value): does it overwrite that field (the overwriting site's receiver / destination derives from the field)?"""
     cb = prog.get(key)
     if cb is None:
         return False
+    sl = Slicer(cb, alias_defs=True) if field else None
+
+    def on_field(op_or_pl_local):
+        if field is None:
+            return True
+        labs, _ = sl.slice_locals([op_or_pl_local]) if isinstance(op_or_pl_local, int) else sl.slice_operand(op_or_pl_local)
+        return ("field:" + field) in labs
+
     for s, st in cb.assigns():
         if "*" in st["dst"].get("p", []) and st["rv"]["k"] in ("use", "aggr"):
-            return True
+            if field is None or last_field(st["dst"]) == field or on_field(st["dst"]["l"]):
+                return True
     for s, t in cb.calls():
         for c in cb.callees_of_call(t, passed=False):
-            if c.endswith("::clear") or c.endswith("::take") or c.endswith("mem::replace") or c.endswith("mem::take"):
-                return True
+            if c.endswith(("::clear", "::take", "mem::replace", "mem::take", "Cell::set", "Cell::replace", "RefCell::replace", "::store")) or \
+                    re.search(r"cell::(Cell|RefCell)<.*>::(set|replace|take)$", c):
+                if field is None or (t.get("args") and on_field(t["args"][0])):
+                    return True
     return False
 
 
-def resetting_mentions(prog, item, crates=None):
+def interior_fields(prog, item_ty):
+    """[(field key, type)] of the interior-mutable fields of the struct a LocalKey<T> / static holds; [] when T is not a workspace struct."""
+    m = re.search(r"LocalKey<(.+)>$", item_ty or "")
+    inner = norm(m.group(1)) if m else norm(item_ty or "")
+    a = prog.adts.get(inner)
+    if not a or a.get("kind") != "Struct":
+        return []
+    out = []
+    for f in a["variants"][0]["fields"]:
+        if re.search(r"cell::(Cell|RefCell|OnceCell|UnsafeCell)<|atomic::Atomic|sync::(poison::)?(mutex::Mutex|rwlock::RwLock)<", f["ty"]):
+            out.append((inner + "." + f["name"], f["ty"]))
+    return out
+
+
+def resetting_mentions(prog, item, crates=None, field=None):
     """Mentions of a LocalKey/static item that (over)write its content: `.set(..)`, `.replace(..)`, `.take()`,
     or `.with(|v| <overwrite or clear>)`."""
     out = []
@@ -490,17 +516,17 @@ def resetting_mentions(prog, item, crates=None):
         names = b.callees_of_call(st, passed=False)
         meth = {n.rsplit("::", 1)[-1] for n in names}
         if meth & {"set", "replace", "take"}:
-            out.append((b, s, "set"))
+            out.append((b, s, "set"))          # LocalKey<Cell/RefCell<..>>::set / replace / take: replaces the whole value
         elif meth & {"with", "try_with", "with_borrow_mut"}:
-            if any(_closure_overwrites(prog, c) for c in b.passed_callables(st)):
+            if any(_closure_overwrites(prog, c, field) for c in b.passed_callables(st)):
                 out.append((b, s, "with-overwrite"))
     return out
 
 
-def reset_on_entry(prog, run_body, S, item, exclude=()):
-    """Is `item` (over)written on every path from run_body's entry to site S?
+def reset_on_entry(prog, run_body, S, item, exclude=(), field=None):
+    """Is `item` (or, with `field`, that field of the struct it holds) (over)written on every path from run_body's entry to site S?
     Returns (bool, explanation)."""
-    ms = [(b, s, k) for b, s, k in resetting_mentions(prog, item) if root_fn(prog, b.nkey) not in exclude]
+    ms = [(b, s, k) for b, s, k in resetting_mentions(prog, item, field=field) if root_fn(prog, b.nkey) not in exclude]
     if not ms:
         return False, "no function overwrites it"
     direct = [(b, s) for b, s, k in ms if b is run_body and run_body.site_dominates(s, S)]
